@@ -178,3 +178,47 @@ def _pb_work(arg):
         return {"i": i, "ctx": sc.export(), "succ": succ}
     except BaseException:
         return {"i": i, "error": traceback.format_exc()}
+
+
+def extra_state(obj, known=()):
+    """Generic fingerprint of instance state that a check's canonical form does not model
+    explicitly: every attribute in vars(obj) / set slots that is not in `known`, as
+    (name, type, structural digest).  A cache or cursor attribute that a regression introduces
+    thereby creates new canonical states (which get expanded) instead of hiding behind a state
+    that looks identical to the model."""
+    out = []
+    names = set(getattr(obj, "__dict__", {}))
+    for klass in type(obj).__mro__:
+        for s in getattr(klass, "__slots__", ()) or ():
+            if isinstance(s, str) and hasattr(obj, s):
+                names.add(s)
+    for n in sorted(names):
+        if n in known:
+            continue
+        try:
+            v = getattr(obj, n)
+        except Exception:
+            continue
+        out.append((n, type(v).__name__, _digest(v)))
+    return tuple(out)
+
+
+def _digest(v, depth=0):
+    if v is None or isinstance(v, (bool, int, str, bytes)):
+        return v if not isinstance(v, (str, bytes)) or len(v) <= 32 else (len(v), hash(v) & 0xFFFF)
+    if isinstance(v, float):
+        return "float"
+    if depth > 2:
+        return type(v).__name__
+    if isinstance(v, dict):
+        return ("dict", len(v), tuple(sorted(repr(k)[:24] for k in list(v)[:8])))
+    if isinstance(v, (list, tuple, set, frozenset)):
+        vs = list(v)[:4]
+        return (type(v).__name__, len(v), tuple(_digest(x, depth + 1) for x in vs) if not isinstance(v, (set, frozenset)) else ())
+    shp = getattr(v, "shape", None)
+    if shp is not None:
+        return ("array", tuple(shp), str(getattr(v, "dtype", "")))
+    try:
+        return (type(v).__name__, len(v))
+    except Exception:
+        return type(v).__name__
